@@ -401,20 +401,59 @@ def s_parse_at(tyname, fields):
             raise Unsupported(f"{tyname}::parse_at on bytes that are not file-backed ({sl!r})")
         absf = fp + off
         offref.store(IntV(off + size))
-        vals = []
-        for (fname, w) in fields:
-            fn = F(f"{tyname}.{fname}@{'32' if ci == 0 else '64'}", BV64, z3.BitVecSort(w))
-            vals.append(IntV(fn(absf)))
-        return Enum("Ok", [Agg(vals, tyname)], "Result")
+        return Enum("Ok", [record_at(tyname, fields, ci, absf)], "Result")
     return h
+
+
+# gABI layouts (byte offset, on-disk width) per class, in the crate's field order; engine A (C02) decides that the real
+# parsers implement exactly these layouts, so struct-level summaries may be phrased over the read-level primitive rd().
+LAYOUT = {
+    "SectionHeader": ([(0, 32), (4, 32), (8, 32), (12, 32), (16, 32), (20, 32), (24, 32), (28, 32), (32, 32), (36, 32)],
+                      [(0, 32), (4, 32), (8, 64), (16, 64), (24, 64), (32, 64), (40, 32), (44, 32), (48, 64), (56, 64)]),
+    "ProgramHeader": ([(0, 32), (4, 32), (8, 32), (12, 32), (16, 32), (20, 32), (24, 32), (28, 32)],
+                      [(0, 32), (8, 64), (16, 64), (24, 64), (32, 64), (40, 64), (4, 32), (48, 64)]),
+    "CompressionHeader": ([(0, 32), (4, 32), (8, 32)], [(0, 32), (8, 64), (16, 64)]),
+    "SysVHashHeader": ([(0, 32), (4, 32)], [(0, 32), (4, 32)]),
+    "GnuHashHeader": ([(0, 32), (4, 32), (8, 32), (12, 32)], [(0, 32), (4, 32), (8, 32), (12, 32)]),
+}
+
+
+def rd(w, absf, signed=False):
+    """the w-bit integer the file holds at absolute position absf (in the file's byte order): uninterpreted"""
+    return F(f"file_{'i' if signed else 'u'}{w}_at", BV64, z3.BitVecSort(w))(absf)
+
+
+def field_term(tyname, idx, ci, absf, dest_w):
+    off, w = LAYOUT[tyname][ci][idx]
+    t = rd(w, absf + off)
+    if w < dest_w:
+        t = z3.ZeroExt(dest_w - w, t)
+    return t
 
 
 def record_at(tyname, fields, ci, absf):
     vals = []
-    for (fname, w) in fields:
-        fn = F(f"{tyname}.{fname}@{'32' if ci == 0 else '64'}", BV64, z3.BitVecSort(w))
-        vals.append(IntV(fn(absf)))
+    for i, (fname, w) in enumerate(fields):
+        vals.append(IntV(field_term(tyname, i, ci, absf, w)))
     return Agg(vals, tyname)
+
+
+def s_parse_int(w, signed):
+    def h(ex, callee, args, dest_ty):
+        endian, offref, data = args
+        sl = as_slice(data)
+        off = offref.load().e
+        n = w // 8
+        fits = z3.And(z3.ULE(off, sl.len), z3.ULE(bv(n), sl.len - off))
+        i = ex.ctx.choose([("ok", fits), ("err", z3.Not(fits))])
+        if i == 1:
+            return Enum("Err", [Enum("SliceReadError", [Agg([IntV(off), IntV(off + n)])], "ParseError")], "Result")
+        fp = sl.file_pos()
+        if fp is None:
+            raise Unsupported("integer read from bytes that are not file-backed")
+        offref.store(IntV(off + n))
+        return Enum("Ok", [IntV(rd(w, fp + off, False), signed)], "Result")
+    return h
 
 
 def closure_fn(prog, text):
@@ -545,6 +584,14 @@ def s_result_ok(ex, callee, args, dest_ty):
     return Enum("None", [], "Option")
 
 
+def s_size_of(ex, callee, args, dest_ty):
+    m = re.search(r"size_of::<(\w+)>", callee)
+    sizes = {"u8": 1, "u16": 2, "u32": 4, "u64": 8, "usize": 8, "i32": 4, "i64": 8}
+    if not m or m.group(1) not in sizes:
+        raise Unsupported("size_of " + callee)
+    return IntV(bv(sizes[m.group(1)]))
+
+
 def s_default_none(ex, callee, args, dest_ty):
     return Enum("None", [], "Option")
 
@@ -658,6 +705,8 @@ def install(prog):
     S.append((R(r"^core::slice::<impl \[u8\]>::get::<std::ops::Range(From)?<usize>>$"), s_slice_get_range))
     S.append((R(r"^<SectionHeader as ParseAt>::parse_at"), s_parse_at("SectionHeader", SHDR_FIELDS)))
     S.append((R(r"^<ProgramHeader as ParseAt>::parse_at"), s_parse_at("ProgramHeader", PHDR_FIELDS)))
+    for (nm, w, sg) in (("u8", 8, False), ("u16", 16, False), ("u32", 32, False), ("u64", 64, False), ("i32", 32, True), ("i64", 64, True)):
+        S.append((R(r"^<\w+ as EndianParse>::parse_%s_at$" % nm), s_parse_int(w, sg)))
     S.append((R(r"^<SysVHashHeader as ParseAt>::parse_at"), s_parse_at("SysVHashHeader", SYSV_FIELDS)))
     S.append((R(r"^<GnuHashHeader as ParseAt>::parse_at"), s_parse_at("GnuHashHeader", GNUH_FIELDS)))
     S.append((R(r"^<ParsingIterator<.*> as Iterator>::find::"), s_iter_find))
@@ -672,6 +721,7 @@ def install(prog):
     S.append((R(r"^<Vec<\w+> as Index<usize>>::index$"), s_vec_index))
     S.append((R(r"^<Option<.*> as Default>::default$"), s_default_none))
     S.append((R(r"^Result::<.*>::ok$"), s_result_ok))
+    S.append((R(r"^(std|core)::mem::size_of::<\w+>$"), s_size_of))
     S.append((R(r"^<CompressionHeader as ParseAt>::parse_at"), s_parse_at("CompressionHeader", CHDR_FIELDS)))
     S.append((R(r"^parse_ident::<E>$|^file::parse_ident"), s_parse_ident))
     S.append((R(r"^FileHeader::<E>::parse_tail$"), s_parse_tail))
